@@ -239,7 +239,7 @@ def run_campaign(pid, p, eng, binp, tier, seed, scratch, exclude, bins_all=None)
             try:
                 with open(os.path.join(sh_out, "log.txt"), "w") as lf:
                     subprocess.run([c_.replace(out, sh_out) if c_ == out else c_ for c_ in cmds[i]] + ["--fork"], env=env_for(extra), stdout=lf,
-                                   stderr=subprocess.STDOUT, timeout=eng.get("shrink_timeout", 900), cwd=sh_out)
+                                   stderr=subprocess.STDOUT, timeout=eng.get("shrink_timeout", 400 if tier == "quick" else 900), cwd=sh_out)
             except subprocess.TimeoutExpired:
                 pass
             shrunk = os.path.join(sh_out, "fail.case")
